@@ -372,6 +372,7 @@ func (c *cluster) unprotectedUpdateCoordinator(n *Node) bool {
 // addNode adds a node to the Cluster and updates and saves the
 // new topology. unprotected.
 func (c *cluster) addNode(node *Node) error {
+	verifPoint("cluster.addNode", 0, 0)
 	// If the node being added is the coordinator, set it for this node.
 	if node.IsCoordinator {
 		c.Coordinator = node.ID
@@ -398,6 +399,7 @@ func (c *cluster) addNode(node *Node) error {
 // removeNode removes a node from the Cluster and updates and saves the
 // new topology. unprotected.
 func (c *cluster) removeNode(nodeID string) error {
+	verifPoint("cluster.removeNode", 0, 0)
 	// remove from cluster
 	c.removeNodeBasicSorted(nodeID)
 
@@ -460,6 +462,7 @@ func (c *cluster) unprotectedSetState(state string) {
 	}
 
 	c.state = state
+	verifPoint("cluster.state", uint64(state[0]), 0)
 
 	if state == ClusterStateResizing {
 		c.abortAntiEntropy()
@@ -1036,6 +1039,8 @@ func (c *cluster) allNodesReady() (ret bool) {
 }
 
 func (c *cluster) handleNodeAction(nodeAction nodeAction) error {
+	verifPoint("cluster.hna.enter", 0, 0)
+	defer verifPoint("cluster.hna.exit", 0, 0)
 	c.mu.Lock()
 	j, err := c.unprotectedGenerateResizeJob(nodeAction)
 	c.mu.Unlock()
@@ -1058,6 +1063,7 @@ func (c *cluster) handleNodeAction(nodeAction nodeAction) error {
 	// Wait for the resizeJob to finish or be aborted.
 	c.logger.Printf("wait for jobResult")
 	jobResult := <-j.result
+	verifPoint("cluster.hna.result", uint64(j.ID), uint64(jobResult[0]))
 
 	// Make sure j.run() didn't return an error.
 	if eg.Wait() != nil {
@@ -1182,9 +1188,11 @@ func (c *cluster) unprotectedGenerateResizeJob(nodeAction nodeAction) (*resizeJo
 
 	// Set job as currentJob.
 	if c.currentJob != nil {
+		verifPoint("cluster.job.rejected", uint64(j.ID), 0)
 		return nil, fmt.Errorf("there is currently a resize job running")
 	}
 	c.currentJob = j
+	verifPoint("cluster.job.start", uint64(j.ID), 0)
 
 	return j, nil
 }
@@ -1263,6 +1271,7 @@ func (c *cluster) unprotectedCompleteCurrentJob(state string) error {
 	if c.currentJob == nil {
 		return ErrResizeNotRunning
 	}
+	verifPoint("cluster.job.complete", uint64(c.currentJob.ID), uint64(state[0]))
 	c.currentJob.setState(state)
 	c.currentJob = nil
 	return nil
@@ -1386,6 +1395,8 @@ func (c *cluster) followResizeInstruction(instr *ResizeInstruction) error {
 }
 
 func (c *cluster) markResizeInstructionComplete(complete *ResizeInstructionComplete) error {
+	verifPoint("cluster.mric.enter", uint64(complete.JobID), 0)
+	defer verifPoint("cluster.mric.exit", uint64(complete.JobID), 0)
 
 	j := c.job(complete.JobID)
 
